@@ -44,7 +44,9 @@ type c02Case struct {
 }
 
 var c02Names = []string{"a", "b", "c", "d"}
-var c02Texts = []string{"", "x", "y", " x ", "12", " 7", "3.5", "true", "x y", "NaN", "2020-01-02", "é", "0", "-4", "yes", "\t"}
+var c02Texts = []string{"", "x", "y", " x ", "12", " 7", "3.5", "true", "x y", "NaN", "2020-01-02", "é", "0", "-4", "yes", "\t",
+	// numeric edge forms: a cast reads decimal integers / Go floats / Go booleans, nothing else
+	"010", "08", "0x10", "1_000", "+5", "1e3", ".5", "1.", "0b11", "0o7", "T", "1", "FALSE", "Inf", "-0", "9223372036854775807", "9223372036854775808"}
 
 func c02DrawEl(t *rapid.T, label string, depth int, xml bool) c02El {
 	e := c02El{Name: rapid.SampledFrom(c02Names).Draw(t, label+"n")}
